@@ -156,8 +156,9 @@ def r3_validation_first(R) -> None:
                         and text(k.ast.exc) == f'KeyError({nm})':
                     seen.add(nm)
             tn = [f.cfg.nodes[tid] for (tid, lab) in f.guards_of(k.id) if f.cfg.nodes[tid].kind == 'test']
+            outer = [t for t in tn if all(t.id in f.dom[u.id] for u in tn)]
             for w in work:
-                R.check(all(t.id in f.dom[w.id] for t in tn), q, f'validation-dominates:{stmt_key(k.ast)}', 'label validation precedes any solving',
+                R.check(bool(outer) and outer[0].id in f.dom[w.id] and not f.cfg.reaches(w.id, k.id), q, f'validation-dominates:{stmt_key(k.ast)}', 'label validation precedes any solving',
                         f'`{w.label()[:50]}` can run before the `{text(k.ast.exc)}` validation', where=f.where(k))
         for nm in ('start', 'end'):
             R.check(nm in seen, q, f'validates:{nm}', f'`{nm}` must resolve to a single int position, else KeyError({nm})',
